@@ -47,26 +47,14 @@ theorem Json.mapFltObj_inj (num : Flt → String) (hnum : ∀ a b, num a = num b
       exact ⟨⟨h.1.1, Json.mapFlt_inj num hnum v v' h.1.2⟩, Json.mapFltObj_inj num hnum r ys h.2⟩
 end
 
-theorem ieCol_from_to (index : List String) (c : String × List Json) (h : c.2.length = index.length) :
-    ieColOf index (c.1, Json.obj (index.zip c.2)) = some c := by
-  have h1 : (index.zip c.2).map Prod.fst = index := List.map_fst_zip (by omega)
-  have h2 : (index.zip c.2).map Prod.snd = c.2 := List.map_snd_zip (by omega)
-  simp [ieColOf, h1, h2]
-
 theorem IE.from_to (ie : IE) (hwf : ie.WF) : IE.fromDict ie.toDict = some ie := by
-  obtain ⟨index, cols⟩ := ie
-  obtain ⟨hlen, hempty⟩ := hwf
-  cases cols with
-  | nil =>
-    have : index = [] := hempty rfl
-    simp [IE.toDict, IE.fromDict, this]
-  | cons c0 rest =>
-    have hall := allSome_map (fun (c : String × List Json) => (c.1, Json.obj (index.zip c.2))) (ieColOf index)
-      (c0 :: rest) (fun c hc => ieCol_from_to index c (hlen c hc))
-    have hc0 : c0.2.length = index.length := hlen c0 (by simp)
-    have h1 : (index.zip c0.2).map Prod.fst = index := List.map_fst_zip (by omega)
-    simp only [List.map_cons] at hall
-    simp [IE.toDict, IE.fromDict, h1, hall]
+  obtain ⟨index, columns, data⟩ := ie
+  obtain ⟨h1, h2⟩ := hwf
+  have hd := allSome_map' Json.arr Json.asArr? data (fun _ => rfl)
+  have hc := allSome_map' Json.str Json.asStr? columns (fun _ => rfl)
+  simp only at h1 h2
+  simp [IE.fromDict, IE.toDict, getArr, Json.get?, List.lookup, Json.asArr?, hd, hc, h1]
+  simpa using h2
 
 theorem ieOpt_from_to (o : Option IE) (hwf : ∀ ie, o = some ie → ie.WF) :
     ieOptFromDict (ieOptToDict o) = some o := by
@@ -75,6 +63,6 @@ theorem ieOpt_from_to (o : Option IE) (hwf : ∀ ie, o = some ie → ie.WF) :
   | some ie =>
     have := IE.from_to ie (hwf ie rfl)
     cases hj : ie.toDict <;> simp [ieOptToDict, ieOptFromDict, hj] at this ⊢ <;> try exact this
-    all_goals simp [IE.fromDict, hj] at this
+    all_goals simp [IE.fromDict, getArr, Json.get?, hj] at this
 
 end Pharmpy.C12
